@@ -557,8 +557,9 @@ async def _run_history(
                 extra = Counter(rest) - Counter(expected_rest)
                 if pred.flush_node is not None or any(w.split(";")[2] == "1" and pred.fields and pred.fields[2] != 2 for w in extra):
                     sig = f"flush:{'missing' if missing else 'extra'}:{mk}"
-                    if "flush" not in aspects and not (Counter(pred.reactions) - Counter(rest)) and info.get("sends_seen"):
-                        # only the release of parked commands differs: C07's subject
+                    if "flush" not in aspects and not (Counter(pred.reactions) - Counter(rest)) and info.get("sends_seen") and (pred.flush_node is not None or missing):
+                        # only the release of parked commands at a wake differs: C07's subject (commands written in reaction to a message
+                        # that is no wake are writes "no other received message produces": judged here)
                         info["diverged"] = True
                         classes["diverged-elsewhere"] += 1
                         return None, info
@@ -836,9 +837,22 @@ def env_sweep_cases(versions=(None, "1.5", "2.1", "2.2"), dims=ENV_DIMS):
         yield {"kind": "envsweep", **hist}
 
 
+def sleeper_sweep_cases(versions=(None, "1.5", "2.0", "2.2")):
+    """A sleeping node with a command parked sends one message of every kind that is NOT its wake (every internal type, a value, a request,
+    a presentation, a stream message), then wakes: nothing but the wake releases the command, and the wake still does."""
+    others = ["5;1;1;0;2;0\n", "5;1;2;0;2;\n", "5;1;0;0;3;again\n", "5;255;0;0;17;2.0\n", "5;255;4;0;0;00\n", "5;7;1;0;0;1\n"]
+    lines = [f"5;255;3;0;{mtype};{payload}\n" for mtype in range(0, 34) for payload in ("", "50")] + others
+    for version in versions:
+        for line in lines:
+            for dim in ({}, {"via": "mqtt"}, {"listen_mode": "persistent", "tasks": True}):
+                yield {"kind": "envsweep", "version": version, "metric": True, "registry": TOUR_REGISTRY, "sleeper": line.strip(), **dim,
+                       "ops": [["send", [5, 1, 1, 0, 2, "1"], True], ["rx", line], ["rx", "5;255;3;0;22;1\n"], ["rx", "5;255;3;0;32;1\n"], ["rx", "5;255;3;0;22;2\n"]]}
+
+
 def all_sweep_cases():
     yield from env_sweep_cases()
     yield from switch_sweep_cases()
+    yield from sleeper_sweep_cases()
 
 
 def opt_sweep_cases(tier: str):
